@@ -115,7 +115,7 @@ fn main() {
         let mut def = CheckDef::new(
             "C19",
             "exploration",
-            "bounded-exhaustive: examined address menu (near-null, 2^12, 2^13+-1, region boundaries +-1, single-bit neighbours of two region addresses (quick: 13 bit positions incl. 47/48/49/63; thorough: all 64), non-canonical amd64 values, 2^47+-1, 2^48, 2^64-1) x memory map (0..3 regions (thorough 0..4) at 4 positions incl. the top of the address space, 7 permission rotations over {none,r,w,x,rw,rx,guard|rwx}, as MemoryInfoList and as LinuxMaps) x 8 exception kinds (AV read/write/exec, other Windows, Linux SIGSEGV MAPERR / SI_KERNEL, Mac KERN_INVALID_ADDRESS / GPFLT) x crash-site instruction on amd64 (none, nop, mov al,[rsp] with 3 (thorough 6) rsp values, mov al,[rax] with rax=0), for amd64, ppc64, mips64 (no context); reduced product for arm64, old arm64, x86, arm. Every dump is processed end to end; every reported candidate is judged. distinct_nontrivial = distinct (examined value, candidate, source register, bit range, operation) tuples among reported candidates.",
+            "bounded-exhaustive: examined address menu (near-null, 2^12, 2^13+-1, region boundaries +-1, single-bit neighbours of two region addresses (quick: 13 bit positions incl. 47/48/49/63; thorough: all 64), non-canonical amd64 values, 2^47+-1, 2^48, 2^64-1) x memory map (0..3 regions (thorough 0..4) at 4 positions incl. the top of the address space, 7 permission rotations over {none,r,w,x,rw,rx,guard|rwx}, as MemoryInfoList and as LinuxMaps) x 8 exception kinds (AV read/write/exec, other Windows, Linux SIGSEGV MAPERR / SI_KERNEL, Mac KERN_INVALID_ADDRESS / GPFLT) x crash-site instruction on amd64 (none, nop, mov al,[rsp] with 3 (thorough 6) rsp values, mov al,[rax] with rax=0), for amd64, ppc64, mips64 (no context); reduced product for arm64, old arm64, x86, arm. Space bitflip-noncanonical-neighbours places the map relative to the examined value: non-canonical amd64 value v (quick 6, thorough 9: one bit 47/48/56/63 away from a mapped-able user address, 2^47, 2^48, 2^63, a value of the highest non-canonical page, a value two bits away from canonical) as rsp of mov al,[rsp] x bit b of 40..64 (thorough 0..64) x map {page of v^2^b; the page next to it; page of v and page of v^2^b} x 7 permission rotations x {MemoryInfoList, LinuxMaps} x {Windows AV read at 2^64-1, Linux SIGSEGV SI_KERNEL at 0, Mac GPFLT at 0, Linux MAPERR at 0}, so that every single-bit neighbour of every non-canonical examined value occurs mapped (or null) and unmapped. Every dump is processed end to end; every reported candidate is judged. distinct_nontrivial = distinct (examined value, candidate, source register, bit range, operation) tuples among reported candidates.",
         );
         def.assumptions = vec![
             "a Linux maps line `a-b` is read as covering a..=b, as minidump.rs documents its own reading (`final address is inclusive afaik`)".into(),
@@ -183,6 +183,25 @@ fn main() {
                 let on = crowd(&mut m);
                 json!({"model": m.summary(), "all_gprs": m.gpr_fill.map(|v| format!("{v:#x}")), "skipped": !on})
             },
+        ));
+        // maps placed relative to the examined value: every single-bit neighbour (bits 40..64) of every
+        // non-canonical value of the menu, with the neighbour mapped / not mapped / the value itself mapped
+        let g5 = gen_bitflip_neighbours(ctx.tier);
+        let g6 = g5.clone();
+        def.spaces.push(Space::new(
+            "bitflip-noncanonical-neighbours",
+            g5.len,
+            move |idx, l| {
+                let m = (g6.model)(idx);
+                l.eval();
+                match process_model(&m) {
+                    Proc::Ok(st) => check_flips(&m, &st, l),
+                    Proc::ProcessErr(e) => l.violation("c19:process:error", format!("processing a well-formed generated dump failed: {e}"), json!({"model": m.summary()})),
+                    Proc::ReadErr(e) => panic!("c19 generator produced an unreadable dump: {e} ({m:?})"),
+                    Proc::Panic(p) => l.panic_violation(&p, json!({"model": m.summary()})),
+                }
+            },
+            g5.describe(),
         ));
         def
     })
